@@ -26,6 +26,9 @@ SIG = {
     "cvrptw": "cvrptw: generated window not ordered / not reachable from the depot / leaves no time to return",
     "cvrptw_floor": "cvrptw: generator emits an unreachable customer for draws with equal window ends at floor(dist)",
     "cvrptw_draws": "cvrptw: generator emits an ill-formed window (not ordered / unreachable / no time to return) for chosen legal draws",
+    "cvrptw_nonint": "cvrptw: non-integer max_time is truncated at the depot only -> generated instance has a dead end",
+    "pctsp": "pctsp/spctsp: penalty / prize outside the coded ranges or instance outside the environment's input format",
+    "tsp_mtsp_md": "tsp/mtsp/mdcpdp: generated instance outside the environment's input format / num_agents or capacity out of range / not solvable",
     "cvrptw_far": "cvrptw: generator emits a customer that cannot be reached or left in time (2*dist > max_time) without tripping its feasibility assert",
     "mtvrp": "mtvrp: generated row violates the environment's solvability condition",
     "mtvrp_feat": "mtvrp: features of the generated row are not those of the requested preset",
@@ -49,6 +52,10 @@ def qz(n):
 def optq(x):
     import math
     return "None" if math.isinf(float(x)) else "(Some %s)" % q(x)
+
+
+def zzmat_(rows):
+    return "[" + "; ".join("[" + "; ".join(cz(v) for v in r) + "]" for r in rows) + "]"
 
 
 def q4(t):
@@ -262,6 +269,37 @@ def _dist0(p):
     return (Fraction(p[0]) ** 2 + Fraction(p[1]) ** 2)
 
 
+def cvrptw_nonint_experiment(torch):
+    from rl4co.envs.routing.cvrptw.env import CVRPTWEnv
+    from rl4co.envs.routing.cvrptw.generator import CVRPTWGenerator
+    locs = [[1.0, 1.0], [1.25, 1.0], [1.25, 1.0], [0.75, 1.0]]
+    t1, t2 = [0.0, 511 / 512.0, 511 / 512.0, 511 / 512.0], [0.0, 4095 / 4096.0, 4095 / 4096.0, 4095 / 4096.0]
+    g = CVRPTWGenerator(num_loc=3, max_time=480.5, loc_sampler=FixedSampler(torch.tensor([locs])), demand_sampler=FixedSampler(torch.full((1, 3), 0.5)))
+    with patched(torch, "rand", queue_fn([torch.tensor([t1]), torch.tensor([t2])])):
+        td = g(1)
+    rec = {"unit": "routing", "gen": "cvrptw", "kind": "nonint_witness", "kwargs": {"num_loc": 3, "max_time": 480.5}, "locs_depot_first": locs,
+           "ts_1": t1, "ts_2": t2, "actions": [1, 3, 2], "emitted_time_windows": td["time_windows"][0].tolist(),
+           "coq_witness": "C18_cvrptw_noninteger_deadline_refuted (generator), C18_cvrptw_noninteger_max_time_refuted (composition)",
+           "expected": "after the mask-admitted moves 1, 3, 2 either the row is done or the mask offers an action (the depot)"}
+    env = CVRPTWEnv(generator=g, check_solution=False)
+    s = env.reset(td.clone(), batch_size=[1])
+    trace = []
+    dead = False
+    for a in rec["actions"]:
+        if not bool(s["action_mask"][0, a]):
+            trace.append({"action": a, "offered": False, "mask": s["action_mask"][0].tolist()})
+            break
+        s.set("action", torch.tensor([a]))
+        s = env.step(s)["next"]
+        trace.append({"action": a, "time": float(s["current_time"][0, 0]), "mask": s["action_mask"][0].tolist(), "done": bool(s["done"][0])})
+    else:
+        dead = (not bool(s["action_mask"][0].any())) and (not bool(s["done"][0]))
+    rec["trace"] = trace
+    rec["dead_end"] = dead
+    rec["observed"] = "all-False mask with done=False" if dead else "no dead end"
+    return rec
+
+
 def cvrptw(run):
     import math
     torch = run.torch
@@ -273,7 +311,7 @@ def cvrptw(run):
     branch = {}
     for rep in range(reps):
         n = rng.choice([1, 2, 4, 7, 10]) if rep > 0 else 10
-        T = rng.choice([480, 480, 400, 1000]) if rep > 0 else 480
+        T = (480.5 if rep == 1 else rng.choice([480, 480, 400, 1000, 480.5])) if rep > 0 else 480
         B = 3
         locs, t1s, t2s = [], [], []
         for b in range(B):
@@ -330,14 +368,14 @@ def cvrptw(run):
             kinds = []
             for j in range(n):
                 dj = Fraction(ds[j])
-                ra = math.floor(dj + (T - 2 * dj) * Fraction(t1s[b][j + 1]))
-                rb = math.floor(dj + (T - 2 * dj) * Fraction(t2s[b][j + 1]))
+                ra = math.floor(dj + (Fraction(T) - 2 * dj) * Fraction(t1s[b][j + 1]))
+                rb = math.floor(dj + (Fraction(T) - 2 * dj) * Fraction(t2s[b][j + 1]))
                 kind = ("equal_at_floor_dist_nonintegral" if ra == rb == math.floor(dj) and dj.denominator != 1 else
                         "equal_at_floor_dist_integral" if ra == rb == math.floor(dj) else
                         "equal_elsewhere" if ra == rb else "one_apart" if abs(ra - rb) == 1 else "ordinary")
                 kinds.append(kind)
                 branch[kind] = branch.get(kind, 0) + 1
-            cases.append("(%s, [%s], [%s])" % (qz(T), "; ".join(q4(c) for c in cust),
+            cases.append("(%s, [%s], [%s])" % (q(T), "; ".join(q4(c) for c in cust),
                                                "; ".join("(%s, %s)" % (cz(a), cz(b_)) for a, b_ in obs)))
             metas.append({"unit": "routing", "gen": "cvrptw", "kind": "model_vs_code", "max_time": T, "num_loc": n,
                           "locs_depot_first": locs[b], "ts_1": t1s[b], "ts_2": t2s[b], "observed_time_windows": obs,
@@ -352,9 +390,13 @@ def cvrptw(run):
 
     def cvrptw_sig(meta):
         """mechanism-specific signature: which kind of draw does the first bad customer have?"""
-        T_ = meta["max_time"]
+        T_ = meta["observed_time_windows"][0][1]          # the deadline the environment reads
         for j, (d_, w_, kind) in enumerate(zip(meta["dist_to_depot"], meta["observed_time_windows"][1:], meta["customer_kinds"])):
             ok = 0 <= w_[0] < w_[1] and d_ <= w_[1] and w_[1] + d_ <= T_
+            if not ok and float(meta["max_time"]) != int(meta["max_time"]) and 0 <= w_[0] < w_[1] and d_ <= w_[1] and w_[1] + d_ <= meta["max_time"]:
+                meta["failing_customer"] = {"index": j + 1, "dist": d_, "window": list(w_), "emitted_depot_deadline": T_,
+                                            "predicate": "tw_hi + dist <= emitted depot deadline int(max_time)"}
+                return SIG["cvrptw_nonint"]
             if not ok:
                 meta["failing_customer"] = {"index": j + 1, "dist": d_, "window": list(w_), "draw_kind": kind,
                                             "predicate": "cvrptw_customer_okb (0 <= lo < hi, dist <= hi, hi + dur + dist <= max_time)"}
@@ -368,6 +410,7 @@ def cvrptw(run):
     cases, metas = [], []
     B = 48 if run.thorough else 8
     plan = [(n, scale, mt, B) for n in ([5, 10, 20, 50, 100] if run.thorough else [5, 20, 50]) for scale in (False, True) for mt in (480, 600)]
+    plan += [(20, False, 480.5, B), (50, False, 600.25, B)]          # non-integer max_time (judged against the emitted depot deadline)
     if run.thorough:      # bulk: 10^4 small rows
         plan += [(6, False, 480, 1000)] * bulk(5) + [(6, True, 480, 1000)] * bulk(3) + [(8, False, 600, 1000)] * bulk(2)
     for (n, scale, mt, B) in plan:
@@ -387,15 +430,29 @@ def cvrptw(run):
                 for b in range(B):
                     H = float(tw[b, 0, 1])
                     cust = [(float(d[b, j]), float(du[b, j + 1]), float(tw[b, j + 1, 0]), float(tw[b, j + 1, 1])) for j in range(n)]
-                    ok0 = float(tw[b, 0, 0]) == 0.0 and abs(H - (1.0 if scale else mt)) < 1e-6
+                    ok0 = float(tw[b, 0, 0]) == 0.0 and abs(H - (1.0 if scale else int(mt))) < 1e-6
                     if not ok0:
                         run.ctx.failure(SIG["cvrptw"], dict(base, row=b, depot_window=[float(tw[b, 0, 0]), H], what="depot window is not [0, max_time]"), tag="cvrptw")
                     cases.append("(%s, %s, [%s])" % (cq(tol), q(H), "; ".join(q4(c) for c in cust)))
                     metas.append(dict(base, row=b, customers_d_dur_lo_hi=cust if B < 100 else None, horizon=H))
                     run.ctx.seen({"cvrptw_a": [seed, b, n, scale, mt]}, nontrivial=True)
                     run.ctx.count("cvrptw_generated_rows")
-    run.add("cvrptw_prop", "Q * Q * list (Q * Q * Q * Q)", "check_cvrptw_prop", cases, metas, prop_handler(run, "cvrptw"))
+    def a_handler(meta, code):
+        key = "cvrptw_nonint" if float(meta["kwargs"]["max_time"]) != int(meta["kwargs"]["max_time"]) else "cvrptw"
+        run.ctx.failure(SIG[key], dict(meta, code=code), tag="cvrptw")
+    run.add("cvrptw_prop", "Q * Q * list (Q * Q * Q * Q)", "check_cvrptw_prop", cases, metas, a_handler)
 
+    # ---- known finding (non-integer max_time), dedicated deterministic experiment: chosen draws, real generator, real env episode.
+    #      max_time 480.5; depot (1, 1); customers 1, 2 at (1.25, 1), customer 3 at (0.75, 1): distance 1/4 each; draws 511/512 and
+    #      4095/4096 -> every window [479, 480] (fine for 480.5), emitted depot deadline int(480.5) = 480.  After the admitted moves
+    #      1, 3, 2 the clock reads 480, the depot is 1/4 away: nothing is offered and the row is not done.
+    try:
+        rec = cvrptw_nonint_experiment(torch)
+        run.ctx.seen({"cvrptw_nonint": "witness"}, nontrivial=True)
+        if rec["dead_end"]:
+            run.ctx.failure(SIG["cvrptw_nonint"], rec, tag="cvrptw")
+    except Exception as e:
+        run.ctx.broken.append("correspondence C18/routing/cvrptw: the non-integer max_time experiment crashed: %r" % (e,))
     # ---- known finding, dedicated deterministic re-finding experiment (no dependence on VERIF_SEED):
     #  (i) the Coq witness C18_cvrptw_far_customer_refuted on the real code: one customer at (180, 240), d = 300, max_time 480,
     #      draws 1/4 and 1/2 -> window [240, 270]: the assert passes, the customer can never be reached before 270;
@@ -757,6 +814,79 @@ def op_svrp_misc(run):
             run.ctx.seen({"svrp_a": [seed, b, n]}, nontrivial=True)
     run.add("svrp_prop", "list Q * list Q", "check_svrp_prop", cases, metas, prop_handler(run, "svrp"))
 
+    # ---- PCTSP / SPCTSP on chosen draws (torch.rand patched: penalty, deterministic prize, stochastic factor); sizes whose
+    #      max_penalty and 4 / num_loc are dyadic are compared exactly, the others with tolerance 2^-20
+    cases, metas = [], []
+    for (n, factor) in [(4, 3.0), (8, 3.0), (16, 3.0), (32, 3.0), (64, 3.0), (16, 2.0), (10, 3.0), (20, 3.0), (50, 3.0)] if True else []:
+        B = 2
+        exact = n in (4, 8, 16, 32, 64)
+        locs = torch.tensor([[[rng.randint(0, 64) / 64.0, rng.randint(0, 64) / 64.0] for _ in range(n + 1)] for _ in range(B)], dtype=torch.float32)
+        draws = [torch.tensor([[rng.choice([0.0, 255 / 256.0, rng.randint(0, 255) / 256.0]) for _ in range(n)] for _ in range(B)], dtype=torch.float32) for _ in range(3)]
+        g = PCTSPGenerator(num_loc=n, penalty_factor=factor, loc_sampler=FixedSampler(locs))
+        with patched(torch, "rand", queue_fn(draws)):
+            td = g(B)
+        for b in range(B):
+            obs = list(zip(td["penalty"][b].tolist(), td["deterministic_prize"][b].tolist(), td["stochastic_prize"][b].tolist()))
+            dr = list(zip(draws[0][b].tolist(), draws[1][b].tolist(), draws[2][b].tolist()))
+            cases.append("(%s, %s, None, %s, %s, [%s], [%s])" % (
+                cq(Fraction(0) if exact else Fraction(1, 1 << 20)), cz(n), q(factor), q(float(torch.tensor(g.max_penalty, dtype=torch.float32))) if exact else cq(Fraction(g.max_penalty)),
+                "; ".join("(%s, %s, %s)" % (q(a), q(b_), q(c)) for a, b_, c in dr), "; ".join("(%s, %s, %s)" % (q(a), q(b_), q(c)) for a, b_, c in obs)))
+            metas.append({"unit": "routing", "gen": "pctsp", "kind": "model_vs_code", "num_loc": n, "penalty_factor": factor, "max_penalty": g.max_penalty,
+                          "draws_rp_rd_rs": dr, "observed_penalty_det_stoch": obs, "sig": SIG["pctsp"]})
+            run.ctx.seen({"pctsp_b": dr, "n": n, "f": factor}, nontrivial=True)
+    run.ctx.count("pctsp_model_vs_code_rows", len(cases))
+    run.add("pctsp", "Q * Z * option Q * Q * Q * list (Q * Q * Q) * list (Q * Q * Q)", "check_pctsp", cases, metas, mismatch_handler(run, "pctsp"))
+
+    # ---- PCTSP / SPCTSP / TSP / mTSP / MDCPDP: unmodified generators judged by the environment units' predicates in Coq
+    def dmat(x):
+        return [[zs_floor(v, 30) for v in r] for r in (x[:, None, :] - x[None, :, :]).norm(p=2, dim=-1).tolist()]
+    GB = 1 << 30
+    pc, pm, tc, tm, mc, mm, dc, dm = [], [], [], [], [], [], [], []
+    Bq = 40 if run.thorough else 4
+    for n in ((5, 8, 13, 20) if run.thorough else (5, 8)):
+        seed = run.seed()
+        g = PCTSPGenerator(num_loc=n)
+        td = g(Bq)
+        mp = -(-Fraction(g.max_penalty) * GB // 1) + 1
+        for b in range(Bq):
+            for st in (False, True):
+                pc.append("(%s, %s, %s, [%s], [%s], [%s])" % ("true" if st else "false", cz(GB), cz(int(mp)),
+                          "; ".join(cz(zs_floor(v, 30)) for v in td["deterministic_prize"][b].tolist()),
+                          "; ".join(cz(zs_floor(v, 30)) for v in td["stochastic_prize"][b].tolist()),
+                          "; ".join(cz(zs_floor(v, 30)) for v in td["penalty"][b].tolist())))
+                pm.append({"unit": "routing", "gen": "spctsp" if st else "pctsp", "kind": "generated", "kwargs": {"num_loc": n}, "torch_seed": seed, "batch": Bq, "row": b})
+            run.ctx.seen({"pctsp_a": [seed, b, n]}, nontrivial=True)
+        seed = run.seed()
+        td = TSPGenerator(num_loc=n)(Bq)
+        for b in range(Bq):
+            tc.append(zzmat_(dmat(td["locs"][b])))
+            tm.append({"unit": "routing", "gen": "tsp", "kind": "generated", "kwargs": {"num_loc": n}, "torch_seed": seed, "batch": Bq, "row": b})
+            run.ctx.seen({"tsp_a": [seed, b, n]}, nontrivial=True)
+        seed = run.seed()
+        td = MTSPGenerator(num_loc=n, min_num_agents=2, max_num_agents=4)(Bq)
+        for b in range(Bq):
+            mc.append("(%s, %s, %s, %s)" % (cz(2), cz(4), cz(int(td["num_agents"][b])), zzmat_(dmat(td["locs"][b]))))
+            mm.append({"unit": "routing", "gen": "mtsp", "kind": "generated", "kwargs": {"num_loc": n, "min_num_agents": 2, "max_num_agents": 4}, "torch_seed": seed,
+                       "batch": Bq, "row": b, "num_agents": int(td["num_agents"][b])})
+            run.ctx.seen({"mtsp_a": [seed, b, n]}, nontrivial=True)
+        for mode, nd in (("multiple", 3), ("single", 2)):
+            seed = run.seed()
+            g = MDCPDPGenerator(num_loc=n, num_depot=nd, depot_mode=mode, min_capacity=1, max_capacity=4)
+            td = g(Bq)
+            for b in range(Bq):
+                nodes = torch.cat((td["depot"][b], td["locs"][b]), 0)
+                dc.append("(%d%%nat, %d%%nat, %s, %s, [%s], %s, %s, %s)" % (n, nd, cz(1), cz(4), "; ".join(cz(int(v)) for v in td["capacity"][b].reshape(-1).tolist()),
+                                                                          zzmat_(dmat(nodes)), cz(GB), cz(zs_floor(float(td["lateness_weight"][b].reshape(-1)[0]), 30))))
+                dm.append({"unit": "routing", "gen": "mdcpdp", "kind": "generated", "kwargs": {"num_loc": n, "num_depot": nd, "depot_mode": mode, "min_capacity": 1, "max_capacity": 4},
+                           "torch_seed": seed, "batch": Bq, "row": b, "capacity": td["capacity"][b].reshape(-1).tolist(), "shapes": {k: list(v.shape) for k, v in td.items()}})
+                run.ctx.seen({"mdcpdp_a": [seed, b, n, mode]}, nontrivial=True)
+    run.ctx.count("pctsp_spctsp_generated_rows_coq", len(pc))
+    run.ctx.count("tsp_mtsp_mdcpdp_generated_rows_coq", len(tc) + len(mc) + len(dc))
+    run.add("pctsp_prop", "bool * Z * Z * list Z * list Z * list Z", "check_pctsp_prop", pc, pm, prop_handler(run, "pctsp"))
+    run.add("tsp_prop", "list (list Z)", "check_tsp_prop", tc, tm, prop_handler(run, "tsp_mtsp_md"))
+    run.add("mtsp_prop", "Z * Z * Z * list (list Z)", "check_mtsp_prop", mc, mm, prop_handler(run, "tsp_mtsp_md"))
+    run.add("mdcpdp_prop", "nat * nat * Z * Z * list Z * list (list Z) * Z * Z", "check_mdcpdp_prop", dc, dm, prop_handler(run, "tsp_mtsp_md"))
+
     # ---- PDP / MDCPDP: even number of nodes; mTSP / PCTSP / TSP ranges
     cases, metas = [], []
     for n in (2, 5, 6, 9, 20, 21):
@@ -823,8 +953,9 @@ def run_unit(ctx, proofs_ok):
     ctx.units["routing"] = {
         "checks": run.stats, "python_s": round(t1 - t0, 1), "coq_s": round(time.time() - t1, 1),
         "proved": "CVRP demands+capacity table (any num_loc), CVRPTW steps 1-8 per customer and per row, MTVRP time windows / demands / "
-                  "subsample / capacity, OP prize ranges for all three prize types + table, PDP pairing, SVRP sorted+dominating",
-        "property_evaluated_only": "mTSP, PCTSP, MDCPDP capacity range, TSP (no post-processing beyond the sampler range); coordinates within bounds",
+                  "subsample / capacity, OP prize ranges for all three prize types + table, PDP pairing, SVRP sorted+dominating, "
+                  "TSP / mTSP / PCTSP+SPCTSP / MDCPDP / SDVRP stated with the environment units' predicates",
+        "property_evaluated_only": "coordinates within bounds; distance-matrix facts (symmetric / non-negative / zero diagonal) are hypotheses of the TSP / mTSP / MDCPDP theorems and are evaluated on generated instances",
     }
     ctx.notes.append(
         "routing: exact arithmetic only. CVRPTW: `hi + dur + d <= max_time` and `d <= hi` have no slack under float32 rounding of "
@@ -856,6 +987,15 @@ def replay(obj):
             print("observed:", repr(e))
             print("still fails")
             return 1
+    if kind == "nonint_witness":
+        rec = cvrptw_nonint_experiment(torch)
+        print("expected:", rec["expected"])
+        print("emitted time windows:", rec["emitted_time_windows"])
+        for t in rec["trace"]:
+            print("  ", t)
+        print("observed:", rec["observed"])
+        print("still fails" if rec["dead_end"] else "no longer fails")
+        return 1 if rec["dead_end"] else 0
     if kind == "far_witness":
         from rl4co.envs.routing.cvrptw.generator import CVRPTWGenerator
         L = torch.tensor([obj["locs_depot_first"]], dtype=torch.float32)
